@@ -113,10 +113,14 @@ def universe():
         ([[1, 2], [3]], "[[1 2] [3]]", True),
         ({1: 2}, ":{[1 2]}", False), ({}, ":{}", False),
         (np.array([]), "[]", True),
+        ([], None, False),                              # an empty Python list (var mode only)
     ]
 
 
-N_U = 23
+N_U = 24
+EMPTY_IDX = [7, 22, 21, 23]         # "", [], :{}, Python []
+ATOM_IDX = list(range(0, 13)) + [20, 21]            # values f@a passes as ONE argument (not lists)
+LISTVAL_IDX = [13, 14, 15, 17, 18, 19, 22]          # list-valued literals (2+ members, ragged, strings, empty)
 LIT_IDX = None      # filled lazily: indices with a literal
 LIST_IDX = None     # indices usable inside a list literal
 
@@ -308,16 +312,31 @@ FORMS = {0: ["direct", "at"], 1: ["direct", "each", "at"], 2: ["direct", "proj",
 CONTEXTS = ["top", "nested", "ref", "globaly"]
 
 
+def _pick(rng, pool):
+    """a value index, biased towards the empties ("" / [] / :{}) that the pool allows"""
+    e = [i for i in EMPTY_IDX if i in pool]
+    return rng.choice(e) if e and rng.random() < 0.2 else rng.choice(pool)
+
+
 def gen_pycall(rng, sig, form, where):
     _init_idx()
     ar = sig_arity(sig)
     case = dict(kind="pycall", sig=list(sig), form=form, where=where)
-    if form in ("each", "over", "at"):
+    ALL = list(range(N_U))
+    if form == "at" and ar == 1 and rng.random() < 0.5:
+        # f@a with an ATOM a (a string however short, a number, a dictionary): a is the one argument
+        case["atom"] = True
+        src = "ref" if where == "ref" else rng.choice(["var", "lit"])
+        case["src"] = src
+        lit_atoms = [i for i in ATOM_IDX if i in LIT_IDX]
+        case["args"] = [rng.randrange(3)] if src == "ref" else [_pick(rng, lit_atoms if src == "lit" else ATOM_IDX)]
+        case["rets"] = [-(1 + rng.randrange(N_U)) if rng.random() < 0.5 else 2000 + i for i in range(4)]
+    elif form in ("each", "over", "at"):
         if form == "at":
             n = ar
         else:
             n = rng.choice([0, 1, 2, 3, 4, 5])
-        case["elems"] = [rng.choice(LIST_IDX) for _ in range(n)]
+        case["elems"] = [_pick(rng, LIST_IDX) for _ in range(n)]
         case["rets"] = [1000 + rng.randrange(50) * 7 + i for i in range(8)]     # ints
         case["src"] = "lit"
     else:
@@ -326,9 +345,9 @@ def gen_pycall(rng, sig, form, where):
         if src == "ref":
             case["args"] = [rng.randrange(3) for _ in range(ar)]                 # which of x,y,z of the caller
         elif src == "lit":
-            case["args"] = [rng.choice(LIT_IDX) for _ in range(ar)]
+            case["args"] = [_pick(rng, LIT_IDX) for _ in range(ar)]
         else:
-            case["args"] = [rng.randrange(N_U) for _ in range(ar)]
+            case["args"] = [_pick(rng, ALL) for _ in range(ar)]
         case["rets"] = [-(1 + rng.randrange(N_U)) if rng.random() < 0.5 else 2000 + i for i in range(4)]
         if form == "proj":
             while True:
@@ -338,8 +357,19 @@ def gen_pycall(rng, sig, form, where):
             case["mask"] = mask
             if src == "var":
                 case["src"] = "lit"
-                case["args"] = [rng.choice(LIT_IDX) for _ in range(ar)]
+                case["args"] = [_pick(rng, LIT_IDX) for _ in range(ar)]
+            if case["src"] == "lit" and rng.random() < 0.45:
+                # a LIST-valued fixed argument positioned before an open slot: f([1 2];), f(1;[4 5 6];), f([];;)
+                h = rng.randrange(1, ar)
+                j = rng.randrange(h)
+                mask[h] = False
+                mask[j] = True
+                case["args"][j] = rng.choice(LISTVAL_IDX)
     case["frame"] = [rng.choice([901, 902, 903, 17, 0]) for _ in range(3)] if where in ("nested", "ref") else []
+    if case["frame"] and rng.random() < 0.5:
+        # the enclosing function's x,y,z are universe values (empties included), not just integers
+        pool = [i for i in ATOM_IDX if i in LIT_IDX] if case.get("atom") else LIT_IDX
+        case["frame_u"] = [_pick(rng, pool) for _ in range(3)]
     # how the callable is built, and other callables of OTHER signatures built the same way and
     # stored in the same interpreter before / after it
     case["ckind"] = rng.choice(CKINDS)
@@ -378,11 +408,15 @@ def run_pycall(ctx, drv, case):
         if pos == "after":
             klong[f"d{j}"] = w.make(tuple(dsig), 2 + j, dk)
     frame = case["frame"]
+    frame_txt = [str(v) for v in frame]
     if where == "globaly":
         klong["y"] = 555
     # ---- build the program text and the expected (separately evaluated) arguments
     try:
-        if form in ("each", "over", "at"):
+        if case.get("frame_u"):
+            frame_txt = [klit(u, i) for i in case["frame_u"]]
+            frame = [klong(t) for t in frame_txt]
+        if form in ("each", "over", "at") and not case.get("atom"):
             ltxt = "[" + " ".join(klit(u, i) for i in case["elems"]) + "]"
             evaluated = klong(ltxt)
             elems = [x for x in evaluated]
@@ -404,14 +438,18 @@ def run_pycall(ctx, drv, case):
                     exp_args.append(u[i][0])
             if form == "direct":
                 body = "f(" + ";".join(texts) + ")"
+            elif form == "at":
+                body = "f@" + texts[0]
             else:
                 mask = case["mask"]
                 fixed = ";".join(t if m else "" for t, m in zip(texts, mask))
                 rest = ";".join(t for t, m in zip(texts, mask) if not m)
                 body = f"g::f({fixed});g({rest})"
-        prog = body if not frame else "{x;y;z;" + body + "}(" + ";".join(str(v) for v in frame) + ")"
-    except Exception as e:  # building the case failed: not a statement about the property
-        raise common.Infra(f"C09 case construction failed: {case}: {e!r}")
+        prog = body if not frame else "{x;y;z;" + body + "}(" + ";".join(frame_txt) + ")"
+    except Exception as e:  # evaluating a literal / storing an argument failed
+        ctx.oracle_fail(f"construct:pycall:{type(e).__name__}", case, "literals evaluate, arguments can be stored",
+                        f"{type(e).__name__}: {e}", "the program's operands could not even be prepared")
+        return case
     case = dict(case, program=prog)
     # ---- real run
     w.log.clear()
@@ -490,6 +528,14 @@ def run_pycall(ctx, drv, case):
     ctx.bump("arity:" + str(ar))
     ctx.bump("sigclass:" + sig_class(sig))
     ctx.bump("ckind:" + ckind)
+    if case.get("atom"):
+        ctx.bump("at:atom-argument")
+    if any(i in EMPTY_IDX for i in list(case.get("args", [])) + list(case.get("elems", []))) and src != "ref":
+        ctx.bump("argument:empty")
+    if form == "proj" and src == "lit":
+        m = case["mask"]
+        if any(m[j] and case["args"][j] in LISTVAL_IDX and not all(m[j + 1:]) for j in range(len(m))):
+            ctx.bump("proj:list-slot-before-hole")
     return case
 
 
@@ -561,7 +607,9 @@ def run_adverb(ctx, drv, case):
         body = ADVERB_TEXT[form].format(a=case.get("a", ""), b=case["b"])
         prog = body if not frame else "{x;y;z;" + body + "}(" + ";".join(str(v) for v in frame) + ")"
     except Exception as e:
-        raise common.Infra(f"C09 adverb case construction failed: {case}: {e!r}")
+        ctx.oracle_fail(f"construct:adverb:{type(e).__name__}", case, "literals evaluate",
+                        f"{type(e).__name__}: {e}", "the program's operands could not even be prepared")
+        return case
     case = dict(case, program=prog)
     w.log.clear()
     try:
@@ -703,7 +751,12 @@ def gen_history(rng, nops):
                 mask = [rng.random() < 0.5 for _ in range(ar)]
                 if any(mask) and not all(mask):
                     break
-            slots = [rng.choice(LIT_IDX) if m else None for m in mask]
+            slots = [_pick(rng, LIT_IDX) if m else None for m in mask]
+            if rng.random() < 0.4:
+                h = rng.randrange(1, ar)
+                j = rng.randrange(h)
+                slots[h] = None
+                slots[j] = rng.choice(LISTVAL_IDX)
             ops.append(["defp", n, base, slots])
             st[n] = ("p", base, slots)
         elif r < 0.46:
@@ -728,7 +781,7 @@ def gen_history(rng, nops):
             tgt = cur if cur is not None and cur[0] in ("k", "p") else cap
             ar = _shadow_arity(tgt)
             k = ar if rng.random() < 0.75 else rng.randrange(4)
-            ops.append(["wcall", wid, [rng.randrange(N_U) for _ in range(k)], rng.choice(["var", "lit"])])
+            ops.append(["wcall", wid, [_pick(rng, list(range(N_U))) for _ in range(k)], rng.choice(["var", "lit"])])
         else:
             cands = [k for k, v in st.items() if v[0] != "data"]     # calling a data name is not an application
             if not cands:
@@ -736,7 +789,7 @@ def gen_history(rng, nops):
             n = rng.choice(cands)
             ar = _shadow_arity(st[n])
             k = ar if rng.random() < 0.8 else rng.randrange(4)
-            ops.append(["kcall", n, [rng.randrange(N_U) for _ in range(k)], rng.choice(["var", "lit"])])
+            ops.append(["kcall", n, [_pick(rng, list(range(N_U))) for _ in range(k)], rng.choice(["var", "lit"])])
     return ops
 
 
@@ -786,6 +839,22 @@ def _call_args(w, u, idxs, mode):
     return ";".join(texts)
 
 
+def _history_define(w, u, op, cid):
+    """the real side of a defining / assigning history op"""
+    klong = w.klong
+    kind = op[0]
+    if kind == "defk":
+        klong(f"{op[1]}::{kbody_text(op[2], op[3])}")
+    elif kind == "setdata":
+        klong[op[1]] = u[op[2]][0]
+    elif kind == "setpy":
+        klong[op[1]] = w.make(tuple(op[2]), cid, op[3] if len(op) > 3 else "plain")
+    else:
+        _, n, base, slots = op
+        w.last_slot_vals = [None if s is None else klong(u[s][1]) for s in slots]
+        klong(f"{n}::{base}({';'.join('' if s is None else u[s][1] for s in slots)})")
+
+
 def run_history(ctx, drv, case):
     u = universe()
     it = Interner()
@@ -804,15 +873,27 @@ def run_history(ctx, drv, case):
         kind = op[0]
         model = impl = None
         where = kind
+        n_calls0 = (len(w.log), len(w.rlog))
+        if kind in ("defk", "setdata", "setpy", "defp"):
+            # definitions and assignments must neither raise nor apply anything
+            try:
+                _history_define(w, u, op, cid + 1)
+            except Exception as e:
+                ctx.oracle_fail(f"history:{kind}:raises", sub, "the definition is stored",
+                                f"{type(e).__name__}: {e}", "a definition / assignment raised")
+                return
+            if (len(w.log), len(w.rlog)) != n_calls0:
+                ctx.oracle_fail(f"history:{kind}:applies", sub, "nothing is applied by a definition",
+                                f"callable calls={w.log[n_calls0[0]:]!r} body runs={w.rlog[n_calls0[1]:]!r}",
+                                "defining a function / projection or assigning a value must not call anything")
+                return
         if kind == "defk":
             _, n, ar, b = op
-            klong(f"{n}::{kbody_text(ar, b)}")
             st[n] = ("k", ar, b)
             if drv:
                 model, impl = drv.ask(f"defk name={n} arity={ar} body={b}"), "ok"
         elif kind == "setdata":
             _, n, i = op
-            klong[n] = u[i][0]
             st[n] = ("data", u[i][0])
             if drv:
                 model, impl = drv.ask(f"set name={n} kind=data v={it.tok(u[i][0])}"), "ok"
@@ -821,7 +902,6 @@ def run_history(ctx, drv, case):
             ck = op[3] if len(op) > 3 else "plain"
             cid += 1
             overwrote = n in st
-            klong[n] = w.make(tuple(sig), cid, ck)
             ctx.bump("ckind:" + ck)
             st[n] = ("py", cid, tuple(sig), overwrote)
             if drv:
@@ -829,8 +909,7 @@ def run_history(ctx, drv, case):
         elif kind == "defp":
             _, n, base, slots = op
             txt = ";".join("" if s is None else u[s][1] for s in slots)
-            slot_vals = [None if s is None else klong(u[s][1]) for s in slots]
-            klong(f"{n}::{base}({txt})")
+            slot_vals = w.last_slot_vals
             st[n] = ("p", base, slot_vals)
             if drv:
                 sl = ",".join("_" if s is None else str(it.tok(s)) for s in slot_vals)
@@ -997,13 +1076,29 @@ def extract_constants(ctx):
 
 # --------------------------------------------------------------------------- entry
 
+def _guarded(ctx, fn, drv, case):
+    """nothing that the real code (or decoding what it produced) throws may escape as an infrastructure error"""
+    try:
+        return fn(ctx, drv, case)
+    except common.Infra:
+        raise
+    except Exception as e:
+        import traceback
+        tb = traceback.extract_tb(e.__traceback__)
+        where = "; ".join(f"{fr.filename.split('/')[-1]}:{fr.lineno}" for fr in tb[-3:])
+        ctx.oracle_fail(f"harness:{case.get('kind')}:{type(e).__name__}", case, "the case runs to a verdict",
+                        f"{type(e).__name__}: {e} at {where}",
+                        "an exception escaped from the real code or from decoding its result")
+        return case
+
+
 def run_case(ctx, drv, case):
     if case.get("kind") == "pycall":
-        run_pycall(ctx, drv, case)
+        _guarded(ctx, run_pycall, drv, case)
     elif case.get("kind") == "history":
-        run_history(ctx, drv, case)
+        _guarded(ctx, run_history, drv, case)
     elif case.get("kind") == "adverb":
-        run_adverb(ctx, drv, case)
+        _guarded(ctx, run_adverb, drv, case)
     else:
         raise common.Infra(f"unknown case kind: {case.get('kind')}")
 
@@ -1016,7 +1111,7 @@ def run(ctx):
     ctx.rule = ("all 32 signatures (ordered choices of distinct names from x,y,z, with/without leading klong) x call "
                 "forms applicable to the arity (direct, projection, each, over, @) x contexts (top level, inside a "
                 "Klong function with x,y,z bound, arguments referring to the caller's x,y,z, global y) x seeded "
-                "argument tuples from a 23-value universe (variables or literals); seeded histories of "
+                "argument tuples from a 24-value universe incl. the empties "" [] :{} (variables or literals; f@a also with an atom a; projections also with list-valued fixed slots before a hole); adverbs over strings / lists with repeated members; seeded histories of "
                 "set/define/project/delete/get/see/wrapper-call/klong-call over 5 names. distinct = distinct "
                 "(signature, form, context, arguments) or distinct history; non-trivial history = at least 3 operations")
     ctx.assumptions += [
@@ -1038,7 +1133,7 @@ def run(ctx):
             for form in FORMS[sig_arity(sig)]:
                 for where in CONTEXTS:
                     for _ in range(reps):
-                        c = run_pycall(ctx, drv, gen_pycall(ctx.rng, sig, form, where))
+                        c = _guarded(ctx, run_pycall, drv, gen_pycall(ctx.rng, sig, form, where))
                         if ctx.rng.random() < 0.01:
                             ctx.sample(c)
         # adverbs over strings / lists whose members repeat, recording callables returning call-count values
@@ -1046,7 +1141,7 @@ def run(ctx):
             for sig in [s_ for s_ in SIGS if sig_arity(s_) == ar]:
                 for where in ("top", "nested"):
                     for _ in range(2 if quick else 14):
-                        c = run_adverb(ctx, drv, gen_adverb(ctx.rng, form, sig, where))
+                        c = _guarded(ctx, run_adverb, drv, gen_adverb(ctx.rng, form, sig, where))
                         if ctx.rng.random() < 0.004:
                             ctx.sample(c)
         # module functions with arbitrary parameter names, remapped to x,y,z by .py (sys_fn._handle_import)
@@ -1059,13 +1154,13 @@ def run(ctx):
                         sig = (("klong",) if withk else ()) + tuple("xyz"[:ar])
                         c = gen_pycall(ctx.rng, sig, "direct", where)
                         c["imported"] = (["klong"] if withk else []) + names
-                        run_pycall(ctx, drv, c)
+                        _guarded(ctx, run_pycall, drv, c)
                         ctx.bump("imported")
         nh = 500 if quick else 6000
         for h in range(nh):
             ops = gen_history(ctx.rng, ctx.rng.randrange(4, 16 if quick else 40))
             case = dict(kind="history", ops=ops)
-            run_history(ctx, drv, case)
+            _guarded(ctx, run_history, drv, case)
             if h < 2:
                 ctx.sample(dict(kind="history", ops=ops[:8]))
     finally:
